@@ -167,3 +167,12 @@ Proof.
   rewrite (gen_adler_loop l fuel f (len l) 0 0 (Z.land adler 65535) (shr adler 16)); auto; try lia.
   unfold adler_update. destruct (fold_left adler_step l (0, Z.land adler 65535, shr adler 16)) as [[cn s1] s2]. reflexivity.
 Qed.
+
+(* the generated C function computes the mathematical Adler-32 (both steps together) *)
+Theorem gen_adler_is_spec fuel adler f l : bytes l -> 0 <= adler < M32 -> len l < M64 ->
+  (forall j, (j < List.length l)%nat -> u8 (f (Z.of_nat j)) = nth j l 0) -> (List.length l < fuel)%nat ->
+  sc_io_adler32_update fuel adler f (len l) = Some (adler32_from adler l).
+Proof.
+  intros Hl Ha Hmax Hf Hfuel. rewrite (gen_adler_update fuel adler f l Hmax Hf Hfuel).
+  now rewrite adler_update_spec.
+Qed.
